@@ -68,26 +68,6 @@ Fixpoint insert_id (x : nat) (l : list nat) : list nat :=
   | y :: t => if Nat.leb x y then x :: l else y :: insert_id x t
   end.
 Definition sort_ids (l : list nat) : list nat := fold_right insert_id [] l.
-(* the code after the two operands of << >> (the guard), of \ and of % *)
-Definition shift_tail (op : arith) : list instr :=
-  [ILocalSet tmpB; ILocalSet tmpA; ILocalGet tmpB; IConst (V64 SHIFT_LIMIT); IBin EmitFacts.shift_guard_cmp;
-   IIf 1 [ILocalGet tmpA; ILocalGet tmpB; IBin (arith_op op)] [IConst (V64 EmitFacts.shift_guard_else)]].
-Definition div_tail (h : handler) : list instr :=
-  (if EmitFacts.div_zero_guard then throw_if_zero h else []) ++
-  (if EmitFacts.div_minus_one_branch then
-     [ILocalSet tmpB; ILocalSet tmpA; ILocalGet tmpB; IConst (V64 (-1)); IBin I64Eq;
-      IIf 1 [IConst (V64 0); ILocalGet tmpA; IBin I64Sub] [ILocalGet tmpA; ILocalGet tmpB; IBin I64DivS]]
-   else [IBin I64DivS]).
-Definition mod_tail (h : handler) : list instr :=
-  (if EmitFacts.mod_zero_guard then throw_if_zero h else []) ++ [IBin I64RemS].
-
-(* emit_for: one branch of the none / all / any arms *)
-Definition for_branch (repeats : bool) (value : Z) (repeat_code : list instr) : list instr :=
-  (if repeats then repeat_code else []) ++ [IConst (V32 value); IBr 2].
-Definition for_arm (a : bool * Z * bool * Z) (repeat_code : list instr) : list instr :=
-  let '(r1, v1, r2, v2) := a in
-  [IIf 1 (for_branch r1 v1 repeat_code) (for_branch r2 v2 repeat_code)].
-
 (* consecutive runs of a sorted list of ids: (first, last) *)
 Fixpoint runs_from (first last : nat) (l : list nat) : list (nat * nat) :=
   match l with
@@ -227,6 +207,26 @@ Fixpoint of_runs (all : bool) (rs : list (nat * nat)) : list instr :=
          | _ => (if all then [IIf 0 [] [IConst (V32 0); IBr 1]] else [IIf 0 [IConst (V32 1); IBr 1] []]) ++ of_runs all t
          end
   end.
+
+(* the code after the two operands of << >> (the guard), of \ and of % *)
+Definition shift_tail (op : arith) : list instr :=
+  [ILocalSet tmpB; ILocalSet tmpA; ILocalGet tmpB; IConst (V64 SHIFT_LIMIT); IBin EmitFacts.shift_guard_cmp;
+   IIf 1 [ILocalGet tmpA; ILocalGet tmpB; IBin (arith_op op)] [IConst (V64 EmitFacts.shift_guard_else)]].
+Definition div_tail (h : handler) : list instr :=
+  (if EmitFacts.div_zero_guard then throw_if_zero h else []) ++
+  (if EmitFacts.div_minus_one_branch then
+     [ILocalSet tmpB; ILocalSet tmpA; ILocalGet tmpB; IConst (V64 (-1)); IBin I64Eq;
+      IIf 1 [IConst (V64 0); ILocalGet tmpA; IBin I64Sub] [ILocalGet tmpA; ILocalGet tmpB; IBin I64DivS]]
+   else [IBin I64DivS]).
+Definition mod_tail (h : handler) : list instr :=
+  (if EmitFacts.mod_zero_guard then throw_if_zero h else []) ++ [IBin I64RemS].
+
+(* emit_for: one branch of the none / all / any arms *)
+Definition for_branch (repeats : bool) (value : Z) (repeat_code : list instr) : list instr :=
+  (if repeats then repeat_code else []) ++ [IConst (V32 value); IBr 2].
+Definition for_arm (a : bool * Z * bool * Z) (repeat_code : list instr) : list instr :=
+  let '(r1, v1, r2, v2) := a in
+  [IIf 1 (for_branch r1 v1 repeat_code) (for_branch r2 v2 repeat_code)].
 
 Section Emit.
   (* emit_expr.  g: identifiers in scope; sp: number of variable slots in use;
